@@ -162,6 +162,12 @@ class ZoneManagerImpl : public ZoneManager {
 
     const ZR mZoneRegistrar;
     ZSC mZoneProcessorCache;
+
+#if SEANDST_ACETIME_VERIF
+  public:
+    /** Verification hook: read-only view of the processor cache. */
+    const ZSC& verifProcessorCache() const { return mZoneProcessorCache; }
+#endif
 };
 
 #if 1
